@@ -179,6 +179,7 @@ def check(plan, transcript, config, opts, refs=None):
         out.fault('selection', len(sels))
         out.fault('failed-selection', sum(1 for s in sc[i] if s in ('EPSET UNSUPPORTED', 'EBSET bad')))
         out.fault('reinit', sels.count('REINIT'))
+        out.fault('context-storage-prefilled', sum(1 for ln in plan.split('\n') if ln.startswith('CTXFILL %d ' % i)))
         if solo is not None:
             if solo[0] != 'ok':
                 out.probe('solo-reference-died')
